@@ -1098,6 +1098,9 @@ type Outcome struct {
 	Events []*Event
 	Value  interface{} // Convert
 	Func   *am.Func    // Redefine
+	// Touched is non-empty when the library wrote into the caller's option
+	// slice (the passed elements or the spare capacity behind them).
+	Touched string
 }
 
 func classify(w *World, err error) string {
@@ -1149,11 +1152,41 @@ func DoCall(w *World, f *am.Func, args []am.Arg) (o Outcome) {
 			o.Events = w.EventsFrom(n)
 		}
 	}()
-	o.Res = f.Call(args...)
+	passed, check := withSpare(args)
+	defer func() { o.Touched = check() }()
+	o.Res = f.Call(passed...)
 	o.Err = o.Res.Err()
 	o.Class = classify(w, o.Err)
 	return
 }
+
+// withSpare copies args into a slice with spare capacity holding sentinels
+// (what a caller passing all[:k]... hands over) and returns a check that the
+// library wrote neither into the passed elements nor behind them.
+func withSpare(args []am.Arg) ([]am.Arg, func() string) {
+	n := len(args)
+	full := make([]am.Arg, n+2)
+	copy(full, args)
+	full[n], full[n+1] = spareSentinel, spareSentinel
+	ptr := func(a am.Arg) uintptr { return reflect.ValueOf(a).Pointer() }
+	want := make([]uintptr, n+2)
+	for i, a := range full {
+		want[i] = ptr(a)
+	}
+	return full[: n : n+2], func() string {
+		for i, a := range full {
+			if ptr(a) != want[i] {
+				if i >= n {
+					return fmt.Sprintf("element %d behind the %d passed options was overwritten", i-n, n)
+				}
+				return fmt.Sprintf("passed option %d of %d was overwritten", i, n)
+			}
+		}
+		return ""
+	}
+}
+
+var spareSentinel = am.Named("verifsentinel", T5{ID: -9})
 
 func DoConvert(w *World, t reflect.Type, args []am.Arg) (o Outcome) {
 	n := 0
@@ -1169,7 +1202,9 @@ func DoConvert(w *World, t reflect.Type, args []am.Arg) (o Outcome) {
 			o.Events = w.EventsFrom(n)
 		}
 	}()
-	o.Value, o.Err = am.Convert(t, args...)
+	passed, check := withSpare(args)
+	defer func() { o.Touched = check() }()
+	o.Value, o.Err = am.Convert(t, passed...)
 	o.Class = classify(w, o.Err)
 	return
 }
